@@ -399,6 +399,18 @@ class ExprMixin:
             if isinstance(vals, Exc):
                 out.append((s, vals))
                 continue
+            ordered = [op for op in e.ops if isinstance(op, (ast.Lt, ast.LtE, ast.Gt, ast.GtE))]
+            pvs = [v for v in vals if v.t == PYVAL]
+            if ordered and pvs and not self.spec_mode:
+                # ordering comparison with a python value of unknown type: TypeError unless it is a number
+                nonnum = z3.Or(*[self.lib.pv_kind(v.z) == 2 for v in pvs])
+                for s2, bad in self.split(s, nonnum):
+                    if bad:
+                        out.append((s2, Exc("TypeError", "'<' not supported between instances", e.lineno)))
+                    else:
+                        conj = [self.compare(op, vals[i], vals[i + 1], s2, e) for i, op in enumerate(e.ops)]
+                        out.append((s2, Val(BOOL, z3.And(*conj) if len(conj) > 1 else conj[0])))
+                continue
             conj = []
             for i, op in enumerate(e.ops):
                 conj.append(self.compare(op, vals[i], vals[i + 1], s, e))
@@ -407,6 +419,18 @@ class ExprMixin:
 
     def compare(self, op, a: Val, b: Val, st, node):
         ka, kb = a.t[0], b.t[0]
+        if (a.t == PYVAL or b.t == PYVAL) and isinstance(op, (ast.Lt, ast.LtE, ast.Gt, ast.GtE)):
+            def real(v):
+                if v.t == PYVAL:
+                    return self.lib.pv_num(v.z)
+                if v.t[0] == "float":
+                    return z3.fpToReal(v.z)
+                if v.t[0] in ("int", "bool"):
+                    return z3.ToReal(self.coerce(v, INT).z)
+                raise Unsupported(f"comparison of a python value with {tstr(v.t)}", node, self.path)
+            ra, rb = real(a), real(b)
+            return {ast.Lt: lambda: ra < rb, ast.LtE: lambda: ra <= rb, ast.Gt: lambda: ra > rb, ast.GtE: lambda: ra >= rb}[type(op)]()
+
         if isinstance(op, (ast.In, ast.NotIn)):
             z = self.contains(b, a, st, node)
             return z if isinstance(op, ast.In) else z3.Not(z)
